@@ -110,7 +110,11 @@ func runC03(r *core.Run) {
 				if ec[1] == "jpeg" {
 					data = gen.WrapJPEG(data, rng, i%3)
 				}
-				ops = append(ops, core.Op{ID: len(ops), Kind: "exif", Data: data, Cut: -1, Args: exifArgs(ec[0], bo, it.C.Ifd0At, it.C.Len)})
+				traced := ec[0] == "DecodeTiff" || ec[0] == "DecodeJPEG" || ec[0] == "DecodeIfd" || (ec[0] == "Parse" && i%4 == 0)
+				if r.Tier != "thorough" && (i+len(bo))%4 != 0 && it.C.Bulk == 0 {
+					traced = false // quick: a quarter of the runs are recorded and validated against Trace_Exif
+				}
+				ops = append(ops, core.Op{ID: len(ops), Kind: "exif", Data: data, Cut: -1, Args: exifArgs(ec[0], bo, it.C.Ifd0At, it.C.Len), Trace: traced})
 				info = append(info, exifOpInfo{i, bo, ec[0], ec[1]})
 			}
 		}
@@ -120,9 +124,14 @@ func runC03(r *core.Run) {
 		r.Machinery("worker: %v", err)
 		return
 	}
+	var ts traceSet
 	for i := range obs {
 		o, op, inf := &obs[i], &ops[i], info[i]
 		it := &items[inf.item]
+		if op.Trace && !o.Bad() && o.Err == "" {
+			r.Events += ts.add(i, exifStart(it.C, it.Bind), o.Events, "exif")
+		}
+		o.Events = nil
 		if o.Bad() {
 			r.Violate("exif:"+inf.entry+":"+o.BadKind()+"@"+o.Site, fmt.Sprintf("%s on a well-formed forward layout: %s%s%s", o.BadKind(), o.Panic, o.Crash, o.Stall), replayOf(op, o, describeExifCase(it)))
 			continue
@@ -149,6 +158,7 @@ func runC03(r *core.Run) {
 			r.Sample(map[string]interface{}{"entry": inf.entry, "order": inf.bo, "case": it.C, "reported": strings.Join(keysOf(it.Exp, it.Skip), ",")})
 		}
 	}
+	validateTraces(r, "Trace_Exif", "Trace_Exif.cfg", "exif2.ifdReader", ops, obs, ts.lines, ts.owner)
 	r.Extra["entry_points"] = []string{"imagemeta.Decode", "imagemeta.DecodeTiff", "exif2.Parse", "tiff.ScanTiffHeader+ifdReader.DecodeTiff", "imagemeta.DecodeJPEG", "ifdReader.DecodeIfd"}
 	r.Assumptions = append(r.Assumptions,
 		"forward layouts only (the property's domain); values are in the ranges the reported types can hold; strings are printable without trailing blanks",
@@ -177,4 +187,55 @@ func keysOf(exp map[string]interface{}, skip map[string]bool) []string {
 		ks = append(ks, k)
 	}
 	return ks
+}
+
+// exifStart is the start record of a closed Exif trace: the abstract file the bytes were built from.
+func exifStart(c *gen.ExifCase, bind map[int]*gen.Bound) map[string]interface{} {
+	dirs := map[string]interface{}{}
+	for _, d := range []string{"IFD0", "Exif", "GPS"} {
+		es := []interface{}{}
+		for _, e := range c.Dirs[d] {
+			es = append(es, map[string]interface{}{"key": e.Key, "ifd": e.Ifd, "cls": e.Cls})
+		}
+		dirs[d] = es
+	}
+	ats := []interface{}{}
+	for i, b := range c.Lay {
+		ats = append(ats, map[string]interface{}{"key": b.Key, "off": c.Offs[i]})
+	}
+	// An entry the library documents as "only if the other field is still empty" (CameraOwnerName after Artist,
+	// BodySerialNumber after CameraSerialNumber) is not read when the other field has been set EARLIER IN STREAM ORDER:
+	// embedded in IFD0, or out of line at a smaller offset.
+	offOf := map[int]int{}
+	for i, b := range c.Lay {
+		offOf[b.Key] = c.Offs[i]
+	}
+	twin := map[uint16]uint16{0xa430: 0x013b, 0xa431: 0xc62f}
+	skip := []int{}
+	// ... and symmetrically the IFD0 CameraSerialNumber is not read when BodySerialNumber's value came first
+	for _, e0 := range c.Dirs["IFD0"] {
+		b0 := bind[e0.Key]
+		if b0 == nil || b0.ID != 0xc62f || b0.Val.Size() <= 4 {
+			continue
+		}
+		for _, e := range c.Dirs["Exif"] {
+			if b := bind[e.Key]; b != nil && b.ID == 0xa431 && (b.Val.Size() <= 4 || offOf[e.Key] < offOf[e0.Key]) {
+				skip = append(skip, e0.Key)
+			}
+		}
+	}
+	for _, e := range c.Dirs["Exif"] {
+		b := bind[e.Key]
+		if b == nil || twin[b.ID] == 0 || b.Val.Size() <= 4 {
+			continue
+		}
+		for _, e0 := range c.Dirs["IFD0"] {
+			if b0 := bind[e0.Key]; b0 != nil && b0.ID == twin[b.ID] && b0.Val.Typ == 2 {
+				if b0.Val.Size() <= 4 || offOf[e0.Key] < offOf[e.Key] {
+					skip = append(skip, e.Key)
+				}
+			}
+		}
+	}
+	return map[string]interface{}{"e": "start", "dirs": dirs, "variant": c.Variant, "ifd0at": c.Ifd0At, "len": c.Len, "ats": ats, "skip": skip}
 }
